@@ -303,8 +303,8 @@ func exitAtomOf(x *Exec, L *LoopCtx, obj types.Object) Poly {
 
 // ---------------------------------------------------------------- forward arms
 
-func c12ForwardArms(p *Prog, r *Report) {
-	r.Rule("C12.R6", "forward conversion, format arms: both short-format arms add 100 to the two-digit year exactly under 'year < century split'; both long-format arms subtract 1900 and reject years before 1901; the leap shift of the month table covers the entries of March to December (table indices 2 .. 11)", 5)
+func c12ForwardArms(p *Prog, r *Report, rule string) {
+	r.Rule(rule, "forward conversion, format arms: both short-format arms add 100 to the two-digit year exactly under 'year < century split'; both long-format arms subtract 1900 and reject years before 1901; the leap shift of the month table covers the entries of March to December (table indices 2 .. 11)", 5)
 	ffi := p.Funcs["hermes.DateConverter"]
 	fx := walkLit(p, ffi)
 	if ffi == nil || fx == nil {
@@ -477,4 +477,56 @@ func c12Extract(p *Prog, r *Report) {
 		r.Ob("fields", p.Pos(fi.Decl.Pos()), false, fmt.Sprintf("%d accepted text lengths recognised, 4 confirmed (6 and 8 short, 8 and 10 long)", n))
 	}
 	_ = strings.Join
+}
+
+// ---------------------------------------------------------------- wiring of the converters
+
+// c12Wiring: the converters are built from the configured century split and
+// date format themselves — a value that is transformed on the way (reduced
+// modulo 100, defaulted, clamped) changes the meaning of every two-digit year.
+func c12Wiring(p *Prog, r *Report) {
+	r.Rule("C12.R8", "converter wiring: the configuration reader builds the text-to-day-number converter from the configured century split and the configured date format themselves (field reads of the overlaid configuration, not reassigned by the reader)", 2)
+	fi := p.Funcs["hermes.readConfig"]
+	if fi == nil {
+		r.Ob("readConfig", "-", false, "hermes.readConfig not found")
+		return
+	}
+	info := fi.Pkg.TypesInfo
+	assigned := map[string]bool{}
+	ast.Inspect(fi.Decl.Body, func(n ast.Node) bool {
+		if as, ok := n.(*ast.AssignStmt); ok {
+			for _, l := range as.Lhs {
+				if se, ok := l.(*ast.SelectorExpr); ok {
+					if nm, _ := namedStruct(info.TypeOf(se.X)); nm == "Config" {
+						assigned[se.Sel.Name] = true
+					}
+				}
+			}
+		}
+		return true
+	})
+	n := 0
+	ast.Inspect(fi.Decl.Body, func(nd ast.Node) bool {
+		call, ok := nd.(*ast.CallExpr)
+		if !ok || len(call.Args) != 2 {
+			return true
+		}
+		f := callee(info, call)
+		if f == nil || (f.Name() != "DateConverter" && f.Name() != "LangTagConverter") {
+			return true
+		}
+		n++
+		se, ok := call.Args[0].(*ast.SelectorExpr)
+		okA := false
+		if ok {
+			if nm, _ := namedStruct(info.TypeOf(se.X)); nm == "Config" && se.Sel.Name == "DivideCentury" && !assigned["DivideCentury"] {
+				okA = true
+			}
+		}
+		r.Ob("split:"+f.Name(), p.Pos(call.Pos()), okA, fmt.Sprintf("%s is built from %s (must be the configured DivideCentury, which the reader does not reassign: reassigned=%v)", f.Name(), types.ExprString(call.Args[0]), assigned["DivideCentury"]))
+		return true
+	})
+	if n < 2 {
+		r.Ob("split", p.Pos(fi.Decl.Pos()), false, fmt.Sprintf("%d converter constructions found in the configuration reader, expected 2", n))
+	}
 }
